@@ -110,6 +110,17 @@ class Seam:
         real_time, real_time_ns = _time.time, _time.time_ns
         _time.time = lambda: s.clock if (s.current is not None and not s.inside) else real_time()
         _time.time_ns = lambda: int(s.clock * 1e9) if (s.current is not None and not s.inside) else real_time_ns()
+        real_sleep = _time.sleep
+
+        def sleep(seconds):
+            # a simulated process that sleeps (a polling loop around a lock file, a back-off) lets simulated time
+            # pass and gives the other processes a turn; it never stalls the simulation for real
+            if s.current is None or s.inside:
+                return real_sleep(seconds)
+            proc = s.current
+            s.clock += max(0.0, float(seconds))
+            s.sched.before_op(proc, "sleep", "", "%.3fs" % seconds)
+        _time.sleep = sleep
         try:
             import fcntl as _fcntl
             real_flock, real_lockf, real_fcntl = _fcntl.flock, _fcntl.lockf, _fcntl.fcntl
